@@ -11,6 +11,7 @@ import (
 	"bytes"
 	"compress/flate"
 	"context"
+	"encoding/json"
 	"fmt"
 	"io"
 	"runtime"
@@ -330,6 +331,90 @@ func bigJSONScenario(rounds int) (string, string) {
 			c2.CloseNow()
 			b.Close()
 			b2.Close()
+		}
+	}
+	return "", ""
+}
+
+// nestedDoc decodes itself only after its hook has run: the hook reads a JSON message on ANOTHER connection, which
+// is legitimate (UnmarshalJSON may do anything) and puts the buffer pool under the sharpest possible test: while
+// connection A's message is being decoded, connection B's read takes a buffer from the pool.
+type nestedDoc struct {
+	Rest []string
+	hook func()
+}
+
+func (n *nestedDoc) UnmarshalJSON(b []byte) error {
+	if n.hook != nil {
+		n.hook()
+	}
+	var raw struct {
+		Rest []string `json:"rest"`
+	}
+	err := json.Unmarshal(b, &raw)
+	n.Rest = raw.Rest
+	return err
+}
+
+// jsonNestedReadScenario: connection A receives {"rest":["aaaa…",…]}, and while it is being decoded connection B
+// receives and decodes a document of b's of the same size. Each must decode its own message.
+func jsonNestedReadScenario(rounds int) (sh, w string) {
+	defer runtime.GOMAXPROCS(runtime.GOMAXPROCS(1)) // the pool hands a released buffer to the next Get on the same P
+	defer func() {
+		if r := recover(); r != nil {
+			sh, w = "json-decode-panics-under-nested-read", fmt.Sprintf("decoding connection A's message panicked while connection B read its own: %v", r)
+		}
+	}()
+	for r := 0; r < rounds; r++ {
+		mk := func(ch byte) (string, []string) {
+			var items []string
+			for i := 0; i < 6; i++ {
+				items = append(items, string(bytes.Repeat([]byte{ch}, 200+r)))
+			}
+			bs, _ := json.Marshal(map[string][]string{"rest": items})
+			return string(bs), items
+		}
+		docA, wantA := mk('a')
+		docB, wantB := mk('b')
+		a1, b1 := newPipe()
+		a2, b2 := newPipe()
+		cA := websocket.VerifNewConn(a1, false, websocket.VerifCopts{}, 0)
+		cB := websocket.VerifNewConn(a2, true, websocket.VerifCopts{}, 0)
+		pA, pB := newRawPeer(b1, true), newRawPeer(b2, false)
+		cA.SetReadLimit(-1)
+		cB.SetReadLimit(-1)
+		pA.writeFrame(RawFrame{Fin: true, Op: 1, Payload: []byte(docA)})
+		pB.writeFrame(RawFrame{Fin: true, Op: 1, Payload: []byte(docB)})
+		ctx, cancel := context.WithTimeout(context.Background(), 5*time.Second)
+		var gotB nestedDoc
+		var errB error
+		gotA := nestedDoc{hook: func() { errB = wsjson.Read(ctx, cB, &gotB) }}
+		errA := wsjson.Read(ctx, cA, &gotA)
+		cancel()
+		cA.CloseNow()
+		cB.CloseNow()
+		b1.Close()
+		b2.Close()
+		eq := func(x, y []string) bool {
+			if len(x) != len(y) {
+				return false
+			}
+			for i := range x {
+				if x[i] != y[i] {
+					return false
+				}
+			}
+			return true
+		}
+		if errA != nil || errB != nil {
+			return "json-read-fails-under-nested-read", fmt.Sprintf("round %d: reading valid documents on two connections, one inside the other's UnmarshalJSON: errA=%v errB=%v", r, errA, errB)
+		}
+		if !eq(gotA.Rest, wantA) || !eq(gotB.Rest, wantB) {
+			first := ""
+			if len(gotA.Rest) > 0 {
+				first = trunc(gotA.Rest[0], 12)
+			}
+			return "json-buffer-shared-between-connections", fmt.Sprintf("round %d: connection A decoded %d items starting %q from its message of a's while connection B read a message of b's inside A's UnmarshalJSON", r, len(gotA.Rest), first)
 		}
 	}
 	return "", ""
